@@ -808,6 +808,113 @@ class GPSym(Family):
         self.log(st, pop, gen=gen, nevals=n)
 
 
+def ev_adf(ind):
+    func = gp.compileADF(ind, GP_STATE["psets"])
+    pts = [x / 10. for x in range(-10, 10, 4)]
+    try:
+        v = sum((func(x) - (x ** 4 + x ** 3 + x ** 2 + x)) ** 2 for x in pts)
+    except (OverflowError, ValueError, ZeroDivisionError):
+        v = 1e300
+    if v != v or v > 1e300:
+        v = 1e300
+    return (float(v),)
+
+
+class GPADF(Family):
+    """examples/gp/adf_symbreg.py: individuals are lists of trees (main + two automatically defined functions), an
+    ephemeral constant in the main set, per-tree crossover and mutation."""
+    def setup(self):
+        def mkset(name, n):
+            ps = gp.PrimitiveSet(name, n)
+            ps.addPrimitive(operator.add, 2)
+            ps.addPrimitive(operator.sub, 2)
+            ps.addPrimitive(operator.mul, 2)
+            ps.addPrimitive(operator.neg, 1)
+            return ps
+        adf1 = mkset("ADF1", 2)
+        adf0 = mkset("ADF0", 2)
+        adf0.addADF(adf1)
+        pset = mkset("MAIN", 1)
+        pset.addEphemeralConstant("rand101adf", partial(random.randint, -1, 1))
+        pset.addADF(adf0)
+        pset.addADF(adf1)
+        pset.renameArguments(ARG0="x")
+        self.psets = (pset, adf0, adf1)
+        GP_STATE["psets"] = self.psets
+        creator.create("FitnessC17", base.Fitness, weights=(-1.0,))
+        creator.create("TreeC17", gp.PrimitiveTree)
+        creator.create("IndividualC17", list, fitness=creator.FitnessC17)
+        tb = self.toolbox
+        tb.register("adf_expr0", gp.genFull, pset=adf0, min_=1, max_=2)
+        tb.register("adf_expr1", gp.genFull, pset=adf1, min_=1, max_=2)
+        tb.register("main_expr", gp.genHalfAndHalf, pset=pset, min_=1, max_=2)
+        tb.register("ADF0", tools.initIterate, creator.TreeC17, tb.adf_expr0)
+        tb.register("ADF1", tools.initIterate, creator.TreeC17, tb.adf_expr1)
+        tb.register("MAIN", tools.initIterate, creator.TreeC17, tb.main_expr)
+        tb.register("individual", tools.initCycle, creator.IndividualC17, [tb.MAIN, tb.ADF0, tb.ADF1])
+        tb.register("population", tools.initRepeat, list, tb.individual)
+        tb.register("evaluate", ev_adf)
+        tb.register("select", tools.selTournament, tournsize=3)
+        tb.register("mate", gp.cxOnePoint)
+        tb.register("expr", gp.genFull, min_=1, max_=2)
+        tb.register("mutate", gp.mutUniform, expr=tb.expr)
+        self.stats = self.std_stats()
+
+    def init(self):
+        pop = self.toolbox.population(n=12)
+        st = {"population": pop, "generation": 0, "halloffame": tools.HallOfFame(3), "logbook": self.new_logbook(),
+              "strategy": None}
+        n = self.evaluate_invalid(pop)
+        st["halloffame"].update(pop)
+        self.log(st, pop, gen=0, nevals=n)
+        return st
+
+    def step(self, st, gen):
+        tb = self.toolbox
+        pop = st["population"]
+        off = [tb.clone(ind) for ind in tb.select(pop, len(pop))]
+        for ind1, ind2 in zip(off[::2], off[1::2]):
+            for tree1, tree2 in zip(ind1, ind2):
+                if random.random() < 0.5:
+                    tb.mate(tree1, tree2)
+                    del ind1.fitness.values
+                    del ind2.fitness.values
+        for ind in off:
+            for tree, pset in zip(ind, self.psets):
+                if random.random() < 0.3:
+                    tb.mutate(individual=tree, pset=pset)
+                    del ind.fitness.values
+        n = self.evaluate_invalid(off)
+        st["halloffame"].update(off)
+        pop[:] = off
+        self.log(st, pop, gen=gen, nevals=n)
+
+
+class GAConstrained(GAList):
+    """base.ConstrainedFitness: the evaluation also sets fitness.constraint_violation, which takes part in every
+    comparison (tournaments, hall of fame) and must survive the checkpoint."""
+    def setup(self):
+        creator.create("FitnessC17", base.ConstrainedFitness, weights=(1.0,))
+        creator.create("IndividualC17", list, fitness=creator.FitnessC17)
+        tb = self.toolbox
+        tb.register("attr_bool", random.randint, 0, 1)
+        tb.register("individual", tools.initRepeat, creator.IndividualC17, tb.attr_bool, 16)
+        tb.register("population", tools.initRepeat, list, tb.individual)
+        tb.register("evaluate", ev_onemax)
+        tb.register("mate", tools.cxTwoPoint)
+        tb.register("mutate", tools.mutFlipBit, indpb=0.1)
+        tb.register("select", tools.selTournament, tournsize=3)
+        self.stats = self.std_stats()
+
+    def evaluate_invalid(self, pop):
+        invalid = [ind for ind in pop if not ind.fitness.valid]
+        fits = self.toolbox.map(self.toolbox.evaluate, invalid)
+        for ind, fit in zip(invalid, fits):
+            ind.fitness.values = fit
+            ind.fitness.constraint_violation = (sum(ind[:5]) > 3, ind[0] + ind[-1] == 2)
+        return len(invalid)
+
+
 class GPTyped(GPSym):
     """strongly typed GP.  variant 'builtin': types bool/float as in examples/gp/spambase.py;
     variant 'heap': user-defined classes as types (their hashes are addresses of heap objects)."""
@@ -1473,7 +1580,7 @@ def model_tokens(st, cursor):
 
 
 FAMILIES = {"ga": GAList, "ga_array": GAArray, "ga_numpy": GANumpy, "nsga2": NSGA2, "nsga2_np32": NSGA2Np32, "ga_np_int8": GANumpyInt8, "ga_array_f": GAArrayF, "spea2": SPEA2, "nsga3": NSGA3,
-            "gp": GPSym, "gp_typed": GPTyped, "cma": CMA, "cma1pl": CMA1PL, "cma_active": CMAActive, "mocma": MOCMA, "ealoops": EALoops, "es": ES, "islands": Islands, "ga_ops": GAOps, "modelga": ModelGA}
+            "gp": GPSym, "gp_adf": GPADF, "ga_constrained": GAConstrained, "gp_typed": GPTyped, "cma": CMA, "cma1pl": CMA1PL, "cma_active": CMAActive, "mocma": MOCMA, "ealoops": EALoops, "es": ES, "islands": Islands, "ga_ops": GAOps, "modelga": ModelGA}
 
 CKPT_KEYS = ["population", "generation", "halloffame", "logbook", "strategy", "rndstate", "nprndstate"]
 
